@@ -1,7 +1,8 @@
 import ScVerif.Base.Line
 import ScVerif.C20.FanSpeed
 import ScVerif.C20.DrvVending
-/-! Driver op of the FanSpeed model: `fan.seq <presets> <init> <op>…` -/
+import ScVerif.C20.ModeFanConc
+/-! Driver ops of the FanSpeed model: `fan.seq <presets> <init> <op>…`, `fan.conc <presets> <init> <sched> <prog>…` -/
 namespace ScVerif.C20.FanSpeed
 open ScVerif.Line
 
@@ -66,6 +67,29 @@ def handle? (toks : List String) : Option String :=
       let s' := step addBits ps acc.1 r
       (s', (ret ++ "#" ++ showFan s') :: acc.2)) (init, ["init#" ++ showFan init])
     pure (";".intercalate outs.reverse)
+  | "fan.conc" :: ps :: init :: sched :: progs => do
+    -- progs: one token per thread, requests separated by `;`; sched: `,`-separated thread steps; the
+    -- interleaving model of `C20_fan_conc_is_sequential_run` (`requestCall`), then every thread finishes
+    let ps ← parsePresets? ps
+    let init ← parseFan? init
+    let progs ← progs.mapM (fun p => if p = "-" then some [] else (p.splitOn ";").mapM parseReq?)
+    let sched ← (if sched = "-" then some [] else (sched.splitOn ",").mapM (fun s => (parseNat? s).map Gau.Ev.step))
+    let c0 : Gau.Cfg (Fan UInt32) FErr := ⟨init, 0, progs.map (fun p => Gau.Thread.ofCalls (p.map (requestCall addBits ps)))⟩
+    let c1 := c0.run sched
+    let c2 := c1.run (Gau.drainSched c1.threads)
+    let showRes : Gau.Res (Fan UInt32) FErr → String
+      | .ok v => "ok=" ++ showFan v
+      | .err .invalidArgument => "err:InvalidArgument"
+      | .err .panic => "panic"
+      | .aborted => "Aborted"
+    let showTrace : Gau.Res (Fan UInt32) FErr → String
+      | .err _ => "r"
+      | _ => "rl"
+    let amp (xs : List String) : String := if xs.isEmpty then "-" else "&".intercalate xs
+    let showTh (th : Gau.Thread (Fan UInt32) FErr) : String :=
+      (if th.cur.isSome || !th.todo.isEmpty then "unfinished:" else "") ++
+      amp (th.results.reverse.map showRes) ++ "::" ++ amp (th.results.reverse.map showTrace)
+    pure (showFan c2.store ++ "#" ++ ";;".intercalate (c2.threads.map showTh))
   | _ => none
 
 end ScVerif.C20.FanSpeed
